@@ -85,7 +85,7 @@ int main(void)
 	const br_x509_class **xsp = &xs.vtable;
 	const br_ssl_server_policy_class **psp = &ps.vtable;
 #ifdef NATIVE_REPLAY
-	memset(&sctx, 0, sizeof sctx);
+	NATIVE_FILL(&sctx, sizeof sctx);
 #endif
 	xs.vtable = &xstub_vtable; ps.vtable = &pstub_vtable;
 	sctx.eng.x509ctx = xsp;
